@@ -24,7 +24,7 @@ def run(cfg):
     return {
         "evaluations": n + meta.get("oracle_checked", 0),
         "distinct_nontrivial": meta.get("distinct_nontrivial", 0),
-        "rule": "tie: anchor at interior / corner / edge positions x previous extent (none, 3x3, 1x2, 2x1, 2x3) x result 1..3 x 1..3 x one blocking cell of each kind (styled empty, number, text, formula, dynamic anchor 1x2 / 2x1, CSE 1x1) at each offset -1..3 x -1..3, with and without row/column styles: pre-state dumped, Model::evaluate run, post-state compared with eval_anchors of the extracted model; typing a number into every such place compared with input_value. oracle: spill_exact_b and spill_full_b on the implementation's workbook after every step + evaluate of seeded histories (spill-rich inputs, blocking/unblocking, structural edits, paste, undo/redo); half of the histories without CSE arrays. Non-trivial = tie cases that spilled, were blocked or left the grid + monitored states holding a dynamic anchor",
+        "rule": "tie: anchor at interior / corner / edge positions x previous extent (none, 3x3, 1x2, 2x1, 2x3) x result 1..3 x 1..3 x one blocking cell of each kind (styled empty, number, text, formula, dynamic anchor 1x2 / 2x1, CSE 1x1) at each offset -1..3 x -1..3, with and without row/column styles: pre-state dumped, Model::evaluate run, post-state compared with eval_anchors of the extracted model; typing a number into every such place compared with input_value. geometry: reader array before/after an anchor =SEQUENCE(3,3), its input range every rectangle up to 3x3 in the ring around the block, reader-first / anchor-first, Model and UserModel: every spilled cell compared with the element computed from the geometry, second evaluate changes nothing. oracle: spill_exact_b and spill_full_b on the implementation's workbook after every step + evaluate of seeded histories (spill-rich inputs, blocking/unblocking, structural edits, paste, undo/redo); half of the histories without CSE arrays. Non-trivial = tie cases that spilled, were blocked or left the grid + monitored states holding a dynamic anchor",
         "samples": meta.get("samples", []),
         "disagreements": dis, "n_disagreements": ndis,
         "oracle_failures": meta.get("oracle_failures", []),
